@@ -19,7 +19,8 @@ THEOREMS = ['C14.postOrder_nodup', 'C14.eval_order', 'C14.eval_prefix', 'C14.eva
             'C14.dispatch_unique', 'C14.special_table_ok', 'C14.canonicalName_idem',
             'C14.disabled_history', 'C14.disabled_until_enabled', 'C14.disabled_step', 'C14.enable_error_changes_nothing',
             'C14.store_registry_coherent', 'C14.restart_same', 'C14.enable_global_keeps_plugin_entry',
-            'C14.machine_safety', 'C14.machine_log_grows', 'C14.extra_reply_witness', 'C14.race_runs_twice']
+            'C14.machine_safety', 'C14.machine_log_grows', 'C14.extra_reply_witness', 'C14.race_runs_twice',
+            'C14.defaultplugin_sets']
 TRUSTED = ['Lean 4.33.0 kernel; axioms ⊆ {propext, Classical.choice, Quot.sound}',
            'harness/extractors/canonicalname.py (the `special` characters of canonicalName → Gen/CanonicalName.lean)',
            'harness/c14.py: introspection of the loaded plugins (names, command methods, nested groups) into the model input; generators; canonicalisation of the bot\'s replies',
